@@ -11,7 +11,10 @@ import (
 	"google.golang.org/grpc"
 )
 
-const grpcExpiresAfter = time.Second * 30
+const (
+	grpcExpiresAfter   = time.Second * 30
+	grpcRequestTimeout = time.Second * 5
+)
 
 // GRPCConn is an endpoint connection
 type GRPCConn struct {
@@ -76,7 +79,9 @@ func (conn *GRPCConn) Send(msg string) error {
 		}
 		conn.sconn = hservice.NewHookServiceClient(conn.conn)
 	}
-	r, err := conn.sconn.Send(context.Background(), &hservice.MessageRequest{Value: msg})
+	ctx, cancel := context.WithTimeout(context.Background(), grpcRequestTimeout)
+	defer cancel()
+	r, err := conn.sconn.Send(ctx, &hservice.MessageRequest{Value: msg})
 	if err != nil {
 		conn.close()
 		return err
